@@ -415,6 +415,10 @@ def rules(ctx):
     # "entry by entry": the entries that take part in an attachment are those of the dataset mask - the outcome variable handed to the
     # Gaussian / Bernoulli densities carries that mask as its weight (a missing outcome filled with 0 is not an observed 0): same rule as C06.R2
     from .c06 import r2_roots
+    # "with the weights of x": the likelihood terms served are computed from the *current* outcomes, censoring indicators included - every
+    # assignment of a data variable invalidates what was computed from the previous one (same rule as C01.R2)
+    from .c01 import r2_invalidate
+    r2_invalidate(ctx, rid="C08.R7")
     r2_roots(ctx, rid="C08.R6", title="the outcomes handed to the densities are weighted by the dataset mask (missing entries contribute no term)")
     r2_bernoulli(ctx)
     r3_weibull(ctx)
